@@ -6,15 +6,19 @@
 EXTENDS Integers, Sequences, FiniteSets, TLC
 
 CONSTANTS Transport,    \* "ws" | "legacy"
-          LockedSteps   \* release steps that take the client-writer lock ({} in the design; non-empty only for the necessity self-test)
+          LockedSteps,  \* release steps that take the client-writer lock ({} in the design; non-empty only for the necessity self-test)
+          ClosesReplaced \* a second RDG_OUT_DATA request replaces the connection the tunnel answers on; the design closes the
+                         \* one it replaces at that moment (TRUE).  FALSE only for the necessity self-test.
 
-Conns == IF Transport = "ws" THEN {"ws"} ELSE {"in", "out"}
-Causes == {<<k, "-">> : k \in {"close-channel", "protocol-error", "unframeable"}} \cup {<<"fin", c>> : c \in Conns} \cup {<<"rst", c>> : c \in Conns}
+\* "out0": the connection of an earlier RDG_OUT_DATA request that a second one under the same identifier replaced
+Conns == IF Transport = "ws" THEN {"ws"} ELSE {"in", "out", "out0"}
+ClientEnds == Conns \ {"out0"}
+Causes == {<<k, "-">> : k \in {"close-channel", "protocol-error", "unframeable"}} \cup {<<"fin", c>> : c \in ClientEnds} \cup {<<"rst", c>> : c \in ClientEnds}
           \cup {<<"shut", IF Transport = "ws" THEN "ws" ELSE "in">>}   \* half close of the connection the client writes on
 NoCause == <<"none", "-">>
 
 VARIABLES stage,    \* how far the exchange got: "accepted" | "channel" (a host connection exists)
-          conn,     \* client connection -> "open" | "closed-by-client" | "closed"
+          conn,     \* client connection -> "open" | "closed-by-client" | "closed" | "none" (never existed)
           host,     \* "none" | "open" | "closed"
           loop,     \* "running" | "exited"
           relay,    \* "none" | "running" | "exited"
@@ -29,7 +33,7 @@ WConn == IF Transport = "ws" THEN "ws" ELSE "out"
 LockFree(step) == step \in LockedSteps => writer = "free"
 
 Init == /\ stage \in {"accepted", "channel"}
-        /\ conn = [c \in Conns |-> "open"]
+        /\ conn = [c \in Conns |-> IF c = "out0" THEN "none" ELSE "open"]
         /\ host = (IF stage = "channel" THEN "open" ELSE "none")
         /\ loop = "running" /\ relay = (IF stage = "channel" THEN "running" ELSE "none")
         /\ registered = TRUE /\ gauge = 1 /\ cause = NoCause
@@ -41,6 +45,13 @@ End(c) == /\ cause = NoCause /\ cause' = c
           \* a client that closes or resets the connection the relay writes to makes the blocked write fail
           /\ writer' = IF c[2] = WConn /\ c[1] # "shut" THEN "free" ELSE writer
           /\ UNCHANGED <<stage, host, loop, relay, registered, gauge>>
+\* a second RDG_OUT_DATA request under the tunnel's identifier: the tunnel answers on the new connection from now on
+\* (it is "out"); what happens to the one it replaces is the design decision ClosesReplaced
+SecondOut == /\ Transport = "legacy" /\ cause = NoCause /\ conn["out0"] = "none" /\ conn["out"] = "open"
+             /\ conn' = [conn EXCEPT !["out0"] = IF ClosesReplaced THEN "closed" ELSE "open"]
+             \* the blocked write was on the replaced connection
+             /\ writer' = IF ClosesReplaced THEN "free" ELSE writer
+             /\ UNCHANGED <<stage, host, loop, relay, registered, gauge, cause>>
 \* the packet loop notices (a read fails, a packet is refused, a write to a dead connection fails) and returns
 LoopReturns == /\ loop = "running" /\ cause # NoCause /\ LockFree("LoopReturns")
                /\ loop' = "exited"
@@ -50,7 +61,8 @@ CloseHost == /\ loop = "exited" /\ host = "open" /\ LockFree("CloseHost") /\ hos
              /\ UNCHANGED <<stage, conn, loop, relay, registered, gauge, cause, writer>>
 \* the websocket handler closes its connection only after it has unregistered (defer order); closing the connection
 \* the relay writes to makes a blocked write fail
-CloseConn(c) == /\ loop = "exited" /\ conn[c] # "closed" /\ LockFree("CloseConn")
+CloseConn(c) == /\ c # "out0"   \* nothing of the tunnel refers to a replaced connection any more
+                /\ loop = "exited" /\ conn[c] # "closed" /\ LockFree("CloseConn")
                 /\ (Transport = "ws" => ~registered)
                 /\ conn' = [conn EXCEPT ![c] = "closed"]
                 /\ writer' = IF c = WConn THEN "free" ELSE writer
@@ -60,11 +72,11 @@ Unregister == /\ loop = "exited" /\ registered /\ LockFree("Unregister") /\ regi
 \* the relay goroutine ends when its read from the host fails
 RelayReturns == /\ relay = "running" /\ host = "closed" /\ writer = "free" /\ relay' = "exited"
                 /\ UNCHANGED <<stage, conn, host, loop, registered, gauge, cause, writer>>
-Next == (\E c \in Causes : End(c)) \/ LoopReturns \/ CloseHost \/ (\E c \in Conns : CloseConn(c)) \/ Unregister \/ RelayReturns
+Next == (\E c \in Causes : End(c)) \/ SecondOut \/ LoopReturns \/ CloseHost \/ (\E c \in Conns : CloseConn(c)) \/ Unregister \/ RelayReturns
 Fair == WF_vars(LoopReturns) /\ WF_vars(CloseHost) /\ (\A c \in Conns : WF_vars(CloseConn(c))) /\ WF_vars(Unregister) /\ WF_vars(RelayReturns)
 Spec == Init /\ [][Next]_vars /\ Fair
 
-Released == /\ host # "open" /\ \A c \in Conns : conn[c] = "closed"
+Released == /\ host # "open" /\ \A c \in Conns : conn[c] \in {"closed", "none"}
             /\ loop = "exited" /\ relay # "running" /\ ~registered /\ gauge = 0
 NothingBeforeTheEnd == cause = NoCause => (loop = "running" /\ registered /\ gauge = 1)
 GaugeNeverNegative == gauge \in {0, 1}
